@@ -109,9 +109,14 @@ impl<G: Group> Env<G> {
 fn prove_desc<G: Group>(env: &mut Env<G>, client: usize, d: &ProveDesc) -> (String, Option<(RangeStatement<G>, RangeProof<G>)>) {
     let params = env.params(client, d.cfg.bits, d.cfg.cap, d.cfg.ext);
     let built = build_with_params::<G>(params, &d.cfg, &d.wit);
-    let (r, _) = prove_mode::<G>(&d.ctx, &built.statement, &built.witness, &d.rng);
+    // the caller's transcript is an argument too: what the call leaves in it is part of the result
+    let mut t = d.ctx.transcript();
+    let mut frng = crate::faultrng::FaultRng::new(d.rng.clone());
+    let r = guarded(|| G::prove(&mut t, &built.statement, &built.witness, &mut frng));
+    let mut after = [0u8; 16];
+    t.challenge_bytes(b"bpsim state probe", &mut after);
     match r {
-        Ok(Ok(p)) => (format!("proof:{}", digest(&[&G::to_bytes(&p)])), Some((built.statement.clone(), p))),
+        Ok(Ok(p)) => (format!("proof:{}:t{}", digest(&[&G::to_bytes(&p)]), hex::encode(&after[..6])), Some((built.statement.clone(), p))),
         Ok(Err(e)) => (format!("err:{}", err_class(&e)), None),
         Err(c) => (format!("caught:{:?}", c), None),
     }
@@ -231,8 +236,17 @@ pub fn exec_op<G: Group>(env: &mut Env<G>, client: usize, op: &Op) -> String {
                     None => return "verify:member-unprovable".to_string(),
                 }
             }
-            let r = verify::<G>(&ctxs, &sts, &proofs, action_from(*action));
-            format!("verify:{}", digest(&[render_verify(&r).as_bytes()]))
+            let mut trs: Vec<merlin::Transcript> = ctxs.iter().map(|c| c.transcript()).collect();
+            let a = action_from(*action);
+            let r = guarded(|| G::verify(&mut trs, &sts, &proofs, a));
+            // the callers' transcripts are arguments too: their final states belong to the result
+            let mut states = Vec::new();
+            for t in trs.iter_mut() {
+                let mut after = [0u8; 8];
+                t.challenge_bytes(b"bpsim state probe", &mut after);
+                states.extend_from_slice(&after);
+            }
+            format!("verify:{}:t{}", digest(&[render_verify(&r).as_bytes()]), digest(&[&states]))
         },
         Op::Codec(d) => match prove_desc(env, client, d).1 {
             Some((_, p)) => {
